@@ -119,16 +119,31 @@ class StrEval:
                 return v.v if isinstance(v, Box) else v
             if e["path"].split("::")[-1] in self.fns:
                 return ("fn", e["path"].split("::")[-1])
+            if e["path"] in ("None", "Option::None"):
+                return ("None",)
             raise Unknown("name %s" % e["path"])
         if k == "if":
             c = e["cond"]
             if c.get("k") == "let_cond":
-                raise Unknown("if let")
+                v = self.eval(c["e"], env)
+                env2 = dict(env)
+                if self.match_bind(c["pat"], v, env2):
+                    return self.block(e["then"], env2)
+                if e.get("else"):
+                    return self.eval(e["else"], env)
+                return None
             if self.eval(c, env):
                 return self.block(e["then"], env)
             if e.get("else"):
                 return self.eval(e["else"], env)
             return None
+        if k == "match":
+            v = self.eval(e["e"], env)
+            for arm in e["arms"]:
+                env2 = dict(env)
+                if self.match_bind(arm["pat"], v, env2) and (not arm.get("guard") or self.eval(arm["guard"], env2)):
+                    return self.eval(arm["body"], env2)
+            raise Unknown("no match arm applies")
         if k == "for":
             it = self.eval(e["iter"], env)
             if isinstance(it, str):
@@ -239,8 +254,12 @@ class StrEval:
                 return [] if name.startswith("Vec") else ""
             if name in ("Vec::with_capacity", "String::with_capacity") and len(args) == 1:
                 return [] if name.startswith("Vec") else ""
-            if name in ("Some",) and len(args) == 1:
-                return args[0]
+            if name in ("Some", "Option::Some") and len(args) == 1:
+                return ("Some", args[0])
+            if name in ("Ok", "Result::Ok") and len(args) == 1:
+                return ("Ok", args[0])
+            if name in ("Err", "Result::Err") and len(args) == 1:
+                return ("Err", args[0])
             if name in ("String::from", "String::from_iter", "Vec::from_iter") and len(args) == 1:
                 return "".join(args[0]) if isinstance(args[0], list) and name.startswith("String") else args[0]
             raise Unknown("call %s" % name)
@@ -266,6 +285,34 @@ class StrEval:
         if k == "return":
             raise Unknown("return")
         raise Unknown("expr kind %s" % k)
+
+    def match_bind(self, p, v, env):
+        """refutable pattern: True and bindings added to env, or False"""
+        pk = p.get("pk")
+        if pk == "tuple_struct":
+            name = p.get("path", "").split("::")[-1]
+            if isinstance(v, tuple) and v and v[0] == name and len(p["elems"]) == len(v) - 1:
+                return all(self.match_bind(q, x, env) for q, x in zip(p["elems"], v[1:]))
+            return False
+        if pk == "path" or (pk == "ident" and p.get("name") in ("None",)):
+            name = (p.get("path") or p.get("name") or "").split("::")[-1]
+            return isinstance(v, tuple) and v == (name,)
+        if pk == "ident":
+            if p.get("name") and p["name"][:1].isupper() and isinstance(v, tuple) and len(v) == 1:
+                return v == (p["name"],)
+            env[p["name"]] = Box(v) if p.get("mut") else v
+            return True
+        if pk == "wild":
+            return True
+        if pk == "tuple":
+            return isinstance(v, (tuple, list)) and len(v) == len(p["elems"]) and all(self.match_bind(q, x, env) for q, x in zip(p["elems"], v))
+        if pk == "ref":
+            return self.match_bind(p["inner"], v, env)
+        if pk in ("lit", "or", "range"):
+            if pk == "or":
+                return any(self.match_bind(c, v, env) for c in p["cases"])
+            return self.pat_match(p, v)
+        raise Unknown("pattern %s" % pk)
 
     def pat_match(self, p, v):
         pk = p.get("pk")
